@@ -593,11 +593,16 @@ def _positive(prog, f: FuncInfo, e: ast.AST, at_node, depth=0) -> Optional[str]:
                     return f"`{e.id}` is a parameter without analysable default"
                 defaults = [None] * (len(names) - len(a.defaults)) + list(a.defaults)
                 dv = defaults[names.index(e.id)]
-                if dv is None:
+                private = f.name.startswith("_") and not f.name.startswith("__")
+                n_sites = sum(1 for g in prog.functions.values() if not isinstance(g.node, ast.Lambda)
+                              for c in prog.calls_in(g) if short(c.func) == f.name)
+                if dv is None and not (private and n_sites >= 1):
+                    # (a private helper that is always handed the value: decided at its call sites alone)
                     return f"parameter `{e.id}` has no default"
-                r = _positive(prog, f, dv, cfg.entry, depth + 1)
-                if r:
-                    return f"default of `{e.id}`: {r}"
+                if dv is not None:
+                    r = _positive(prog, f, dv, cfg.entry, depth + 1)
+                    if r:
+                        return f"default of `{e.id}`: {r}"
                 pos = names.index(e.id)
                 for g in prog.functions.values():
                     if isinstance(g.node, ast.Lambda):
@@ -611,6 +616,29 @@ def _positive(prog, f: FuncInfo, e: ast.AST, at_node, depth=0) -> Optional[str]:
                                 if r:
                                     return f"call site {g.qualname}:{c.lineno} passes `{short(arg)}`: {r}"
                 continue
+            # `limit, head, tail = _preview_limits(n)`: the component the package helper returns at that position, on every return
+            st_ = getattr(dn, "ast", None)
+            if isinstance(st_, ast.Assign) and len(st_.targets) == 1 and isinstance(st_.targets[0], ast.Tuple) \
+                    and isinstance(st_.value, ast.Call) and isinstance(st_.value.func, ast.Name):
+                names_ = [x.id if isinstance(x, ast.Name) else None for x in st_.targets[0].elts]
+                g = prog.functions.get(f"{f.module}.{st_.value.func.id}")
+                if e.id in names_ and g is not None and not isinstance(g.node, ast.Lambda):
+                    k_ = names_.index(e.id)
+                    gcfg = cfg_of(g)
+                    rets_ = [n_ for n_ in gcfg.stmt_nodes() if isinstance(n_.ast, ast.Return)]
+                    bad_ = None
+                    for rn in rets_:
+                        rv = rn.ast.value
+                        if not (isinstance(rv, ast.Tuple) and len(rv.elts) == len(names_)):
+                            bad_ = f"`{g.name}` does not return a {len(names_)}-tuple display"
+                            break
+                        r = _positive(prog, g, rv.elts[k_], rn, depth + 1)
+                        if r:
+                            bad_ = f"`{g.name}` returns `{short(rv.elts[k_])}` for it: {r}"
+                            break
+                    if rets_ and bad_ is None:
+                        continue
+                    return f"`{e.id}` is unpacked from `{short(st_.value, 40)}`: {bad_ or 'no return found'}"
             if not isinstance(d, ast.expr):
                 return f"`{e.id}` is bound by `{short(d, 40)}`"
             r = _positive(prog, f, d, dn, depth + 1)
